@@ -2,7 +2,7 @@
 from hypothesis import strategies as st
 
 from harness import specs
-from harness.elements import E, Log, canon, show
+from harness.elements import E, Log, canon, show, mk
 from harness.model import ModelGraph
 from harness.runner import Part, Result, fuzz_part as runner_fuzz_part
 from harness.vloop import install
@@ -28,7 +28,9 @@ def case_strategy(draw, tier="quick"):
     spec = draw(specs.pipeline_spec(kinds=specs.SYNC_KINDS, max_nodes=8))
     ents = specs.entry_ids(spec)
     cols = specs.collect_ids(spec)
-    ev = st.tuples(st.just("e"), st.integers(0, len(ents) - 1), st.integers(0, 5))
+    # value code 6 = a plain None among the elements (in a third of the cases)
+    top = 6 if draw(st.integers(0, 2)) == 0 else 5
+    ev = st.tuples(st.just("e"), st.integers(0, len(ents) - 1), st.integers(0, top))
     if cols:
         ev = st.one_of(ev, ev, ev, st.tuples(st.just("f"), st.sampled_from(cols)))
     events = draw(st.lists(ev, min_size=1, max_size=25))
@@ -55,7 +57,7 @@ def run_real(case):
         b = specs.build(spec, log, asynchronous=loop is not None)
         for idx, e in enumerate(case["events"]):
             if e[0] == "e":
-                r = b.nodes[specs.entry_ids(spec)[e[1]]].emit(E(e[2], {idx}))
+                r = b.nodes[specs.entry_ids(spec)[e[1]]].emit(mk(e[2], idx))
                 if loop is not None:
                     pend.append(r)
             else:
@@ -74,7 +76,7 @@ def run_real(case):
         b = specs.build(spec, log, asynchronous="thread")
         for idx, e in enumerate(case["events"]):
             if e[0] == "e":
-                b.nodes[specs.entry_ids(spec)[e[1]]].emit(E(e[2], {idx}))
+                b.nodes[specs.entry_ids(spec)[e[1]]].emit(mk(e[2], idx))
             else:
                 b.nodes[e[1]].flush()
         for s_ in b.nodes:
@@ -94,7 +96,7 @@ def run_model(case):
     ents = specs.entry_ids(spec)
     for idx, e in enumerate(case["events"]):
         if e[0] == "e":
-            g.push(ents[e[1]], E(e[2], {idx}))
+            g.push(ents[e[1]], mk(e[2], idx))
         else:
             g.flush(e[1])
     return [(i, canon(x)) for i, x, _ in g.log]
@@ -150,6 +152,8 @@ def execute(case):
         per[i] = per.get(i, 0) + 1
     busy = any(c >= 2 for i, c in per.items() if spec["nodes"][i]["k"] != "entry")
     classes = ["mode:" + case["mode"]]
+    if any(e[0] == "e" and e[2] == 6 for e in case["events"]):
+        classes.append("None-among-the-elements")
     if spec.get("fb"):
         classes.append("feedback-edge")
     if len(specs.entry_ids(spec)) > 1:
